@@ -39,6 +39,8 @@ pub(crate) mod conn;
 pub(crate) mod streams;
 #[cfg(not(wasm_browser))]
 mod tls;
+#[cfg(feature = "verif-hooks")]
+pub(crate) use self::tls::verif_dial_happy_eyeballs;
 #[cfg(not(wasm_browser))]
 mod util;
 
